@@ -57,6 +57,21 @@ def _apply(v: Variant, root: str) -> Optional[str]:
                     with open(p, "w") as fh:
                         fh.write("\n\n\n# reformatted by ast.unparse (comments dropped, lines moved)\n" + ast.unparse(t) + "\n")
         return None
+    if v.func == "rename-locals":
+        for dirpath, _, files in os.walk(os.path.join(root, "gpytorch")):
+            for fn in files:
+                if fn.endswith(".py"):
+                    p = os.path.join(dirpath, fn)
+                    with open(p) as fh:
+                        s = fh.read()
+                    import warnings
+                    with warnings.catch_warnings():
+                        warnings.simplefilter("ignore")
+                        t = ast.parse(s)
+                    rename_locals(t)
+                    with open(p, "w") as fh:
+                        fh.write(ast.unparse(t) + "\n")
+        return None
     if v.func == "shift-lines":
         for dirpath, _, files in os.walk(os.path.join(root, "gpytorch")):
             for fn in files:
@@ -123,7 +138,68 @@ def _run_variant(args) -> dict:
         shutil.rmtree(tmp, ignore_errors=True)
 
 
+def rename_locals(tree: ast.AST, suffix: str = "_rn"):
+    """Behaviour-preserving refactoring: every plain local variable of every function (assigned by `=`, augmented assignment,
+    for/with/comprehension targets; not a parameter, not global/nonlocal, not bound by import/except/def/class, not used by a
+    nested def or lambda) gets a new name.  Attribute names, keyword names and parameters stay."""
+
+    def locals_of(fn) -> set:
+        stores, banned = set(), set()
+        a = fn.args
+        for x in a.posonlyargs + a.args + a.kwonlyargs + ([a.vararg] if a.vararg else []) + ([a.kwarg] if a.kwarg else []):
+            banned.add(x.arg)
+
+        def walk(n, top=True):
+            for ch in ast.iter_child_nodes(n):
+                if isinstance(ch, (ast.FunctionDef, ast.AsyncFunctionDef, ast.Lambda, ast.ClassDef)):
+                    if not isinstance(ch, ast.Lambda):
+                        banned.add(ch.name)
+                    # any name a nested scope mentions keeps its spelling (closures, shadowing parameters)
+                    for x in ast.walk(ch):
+                        if isinstance(x, ast.Name):
+                            banned.add(x.id)
+                        if isinstance(x, ast.arg):
+                            banned.add(x.arg)
+                    continue
+                if isinstance(ch, (ast.Global, ast.Nonlocal)):
+                    banned.update(ch.names)
+                if isinstance(ch, (ast.Import, ast.ImportFrom)):
+                    for al in ch.names:
+                        banned.add((al.asname or al.name).split(".")[0])
+                if isinstance(ch, ast.ExceptHandler) and ch.name:
+                    banned.add(ch.name)
+                if isinstance(ch, ast.Name) and isinstance(ch.ctx, (ast.Store, ast.Del)):
+                    stores.add(ch.id)
+                if isinstance(ch, ast.Call) and isinstance(ch.func, ast.Name) and ch.func.id in ("locals", "vars", "eval", "exec"):
+                    banned.add("*")
+                walk(ch, False)
+
+        walk(fn)
+        if "*" in banned:
+            return set()
+        return {n for n in stores - banned if not n.startswith("__")}
+
+    class R(ast.NodeTransformer):
+        def __init__(self, names):
+            self.names = names
+
+        def visit_Name(self, n):
+            if n.id in self.names:
+                n.id = n.id + suffix
+            return n
+
+    for fn in [n for n in ast.walk(tree) if isinstance(n, (ast.FunctionDef, ast.AsyncFunctionDef))]:
+        names = locals_of(fn)
+        if not names:
+            continue
+        # do not descend into nested defs: their own pass handles them (names they mention were banned above)
+        for st in fn.body:
+            for sub in [st] if not isinstance(st, (ast.FunctionDef, ast.AsyncFunctionDef, ast.ClassDef)) else []:
+                R(names).visit(sub)
+
+
 GENERIC = [
+    Variant("benign: every local variable of every function renamed (ast-level refactoring)", "", func="rename-locals", expect="silent"),
     Variant("benign: ast.unparse of every file (comments dropped, every line moved)", "", func="unparse-all", expect="silent"),
     Variant("benign: seven lines inserted at the top of every file", "", func="shift-lines", expect="silent"),
 ]
